@@ -41,6 +41,10 @@ pub enum Call {
 #[derive(Debug, Clone)]
 pub struct Case {
     pub calls: Vec<Call>,
+    /// sparse mode: the full read-back runs only after the calls whose bit is set (and at the end), so that the
+    /// read-back itself cannot hide a state that only exists between reads
+    pub sparse: bool,
+    pub full_check_mask: u64,
 }
 
 pub struct C17 {
@@ -154,7 +158,7 @@ impl Prop for C17 {
             };
             calls.push(c);
         }
-        Case { calls }
+        Case { calls, sparse: src.chance(1, 3), full_check_mask: src.word() & src.word() }
     }
 
     fn run(&self, case: &Case) -> Outcome {
@@ -200,6 +204,7 @@ impl Prop for C17 {
         json!({
             "backend": format!("{:?}", self.backend),
             "calls": case.calls.iter().map(|c| format!("{:?}", c)).collect::<Vec<_>>(),
+            "full_read_back": if case.sparse { format!("only after calls whose bit is set in {:#x}, and at the end", case.full_check_mask) } else { "after every call".to_string() },
         })
     }
 
@@ -207,10 +212,12 @@ impl Prop for C17 {
         "1-40 Storage calls (put, multi_put, mark_as_tombstone, mark_many_as_tombstone, remove_tombstones on ids that \
          are tombstones or absent, get, multi_get, iter_metadata, get_keyspace_list; for file-backed stores also close \
          + reopen at any point) over 1-3 keyspaces; ids from {0,1,2,3,2^63-1,2^63,2^64-2,2^64-1,random}, payloads \
-         empty / 1 B / up to 300 B / 64 KiB, stamps from the extremes of every field; oracle: after EVERY call, for \
-         every keyspace, iter_metadata (as a set), get of every known id and multi_get (as a set: id, stamp, bytes) \
-         equal a HashMap reference model; keyspace list: no duplicates, contains every keyspace holding an entry, \
-         contains only keyspaces that were referenced; non-trivial = a tombstone written to a keyspace with no \
+         empty / 1 B / up to 300 B / 64 KiB, stamps from the extremes of every field; oracle: every read call of the sequence returns what a HashMap \
+         reference model holds, and a full read-back -- after EVERY call in two thirds of the cases, only after a \
+         generated subset of the calls and at the end in the others, so that reading cannot mask a state -- finds, \
+         for every keyspace, iter_metadata (as a set), get of every known id and multi_get (as a set: id, stamp, \
+         bytes) equal to the model; keyspace list (checked before, between and after the keyspace reads): no \
+         duplicates, contains every keyspace holding an entry, contains only keyspaces that were referenced; non-trivial = a tombstone written to a keyspace with no \
          entries, or an id > i64::MAX, or a reopen after a write"
     }
 }
@@ -348,6 +355,7 @@ fn err<E: std::fmt::Display>(what: &str, i: usize, e: E) -> Fail {
 
 async fn compare<B: Sut>(b: &B, model: &Model, referenced: &BTreeSet<usize>, when: &str) -> Result<(), Fail> {
     let s = b.store();
+    check_keyspace_list(s, model, referenced, when, "before anything else is read").await?;
     // only keyspaces that have been referenced are read: a backend may register a keyspace on first read
     for ks in referenced.iter().copied() {
         let name = ks_name(ks);
@@ -416,16 +424,24 @@ async fn compare<B: Sut>(b: &B, model: &Model, referenced: &BTreeSet<usize>, whe
             got_docs.keys().collect::<Vec<_>>(),
             want_docs.keys().collect::<Vec<_>>()
         );
+        check_keyspace_list(s, model, referenced, when, &format!("after reading keyspace {name}")).await?;
     }
+    check_keyspace_list(s, model, referenced, when, "after reading every referenced keyspace").await
+}
+
+/// The keyspace list: no duplicates, every non-empty keyspace, nothing that was never used.  It is checked
+/// before anything else is read, after each keyspace has been read and at the end, because reading a keyspace
+/// may change what a backend knows about its keyspaces (LMDB opens database handles lazily).
+async fn check_keyspace_list<S: Storage>(s: &S, model: &Model, referenced: &BTreeSet<usize>, when: &str, at: &str) -> Result<(), Fail> {
     let list = s.get_keyspace_list().await.map_err(|e| err("get_keyspace_list", 0, e))?;
     let set: BTreeSet<String> = list.iter().cloned().collect();
-    ensure!(set.len() == list.len(), "keyspace-list-duplicate", "{when}: keyspace list has duplicates: {:?}", list);
+    ensure!(set.len() == list.len(), "keyspace-list-duplicate", "{when}, {at}: keyspace list has duplicates: {:?}", list);
     for (ks, m) in model {
         if !m.is_empty() {
             ensure!(
                 set.contains(&ks_name(*ks)),
                 "keyspace-missing-from-list",
-                "{when}: keyspace {} holds {} entries but is not listed: {:?}",
+                "{when}, {at}: keyspace {} holds {} entries but is not listed: {:?}",
                 ks_name(*ks),
                 m.len(),
                 list
@@ -436,7 +452,7 @@ async fn compare<B: Sut>(b: &B, model: &Model, referenced: &BTreeSet<usize>, whe
         ensure!(
             referenced.iter().any(|k| ks_name(*k) == *name),
             "keyspace-invented",
-            "{when}: keyspace list contains {name} which was never used"
+            "{when}, {at}: keyspace list contains {name} which was never used"
         );
     }
     Ok(())
@@ -514,12 +530,50 @@ async fn run<B: Sut>(case: &Case, b: &mut B) -> Outcome {
                     }
                 }
             },
-            Call::Get { ks, .. } | Call::MultiGet { ks, .. } | Call::IterMetadata { ks } => {
-                // reads are covered by the full comparison below; reading a never-written keyspace must be fine
+            Call::Get { ks, id } => {
                 referenced.insert(*ks);
-                let _ = b.store().iter_metadata(&ks_name(*ks)).await.map_err(|e| err("iter_metadata", i, e))?;
+                let got = b.store().get(&ks_name(*ks), *id).await.map_err(|e| err("get", i, e))?;
+                let want = model.get(ks).and_then(|m| m.get(id)).and_then(|(st, d)| d.as_ref().map(|d| (*st, d.clone())));
+                let got_t = got.as_ref().map(|d| (Stamp::of(d.last_updated()), d.data().to_vec()));
+                ensure!(
+                    got.as_ref().map(|d| d.id() == *id).unwrap_or(true) && got_t == want,
+                    "get-differs",
+                    "{when}: get({},{id}) = {:?}, reference model has {:?}",
+                    ks_name(*ks),
+                    got_t.as_ref().map(|(s, d)| (s, d.len())),
+                    want.as_ref().map(|(s, d)| (s, d.len()))
+                );
             },
-            Call::KeyspaceList => {},
+            Call::MultiGet { ks, ids } => {
+                referenced.insert(*ks);
+                let docs: Vec<Document> = b.store().multi_get(&ks_name(*ks), ids.clone().into_iter()).await.map_err(|e| err("multi_get", i, e))?.collect();
+                let got: BTreeMap<u64, (Stamp, Vec<u8>)> = docs.iter().map(|d| (d.id(), (Stamp::of(d.last_updated()), d.data().to_vec()))).collect();
+                ensure!(got.len() == docs.len(), "multi-get-duplicate", "{when}: multi_get returned an id twice");
+                let want: BTreeMap<u64, (Stamp, Vec<u8>)> = ids
+                    .iter()
+                    .filter_map(|id| model.get(ks).and_then(|m| m.get(id)).and_then(|(st, d)| d.as_ref().map(|d| (*id, (*st, d.clone())))))
+                    .collect();
+                ensure!(
+                    got == want,
+                    "multi-get-differs",
+                    "{when}: multi_get({},{:?}) returned ids {:?}, reference model has live ids {:?}",
+                    ks_name(*ks),
+                    ids,
+                    got.keys().collect::<Vec<_>>(),
+                    want.keys().collect::<Vec<_>>()
+                );
+            },
+            Call::IterMetadata { ks } => {
+                referenced.insert(*ks);
+                let got: BTreeMap<u64, (Stamp, bool)> =
+                    b.store().iter_metadata(&ks_name(*ks)).await.map_err(|e| err("iter_metadata", i, e))?.map(|(id, ts, t)| (id, (Stamp::of(ts), t))).collect();
+                let want: BTreeMap<u64, (Stamp, bool)> =
+                    model.get(ks).map(|m| m.iter().map(|(id, (s, d))| (*id, (*s, d.is_none()))).collect()).unwrap_or_default();
+                ensure!(got == want, "metadata-differs", "{when}: iter_metadata({}) = {:?}, reference model has {:?}", ks_name(*ks), got, want);
+            },
+            Call::KeyspaceList => {
+                check_keyspace_list(b.store(), &model, &referenced, &when, "as the call itself").await?;
+            },
             Call::Reopen => {
                 if wrote {
                     reopen_after_write = true;
@@ -527,12 +581,17 @@ async fn run<B: Sut>(case: &Case, b: &mut B) -> Outcome {
                 b.reopen().await.map_err(|e| Fail { signature: "reopen-failed".into(), message: format!("call {i}: reopening failed: {e}") })?;
             },
         }
-        compare(b, &model, &referenced, &when).await?;
+        if !case.sparse || (case.full_check_mask >> (i % 64)) & 1 == 1 {
+            compare(b, &model, &referenced, &when).await?;
+        }
     }
     // keyspaces never affect one another: the ones never touched are still empty
     let all: BTreeSet<usize> = (0..3).collect();
     compare(b, &model, &all, "at the end (all keyspaces)").await?;
     let mut labels = vec![];
+    if case.sparse {
+        labels.push("sparse_read_back");
+    }
     if tomb_on_empty {
         labels.push("tombstone_on_empty_keyspace");
     }
